@@ -256,11 +256,25 @@ def gen_knn_calls(ctx, n_calls, nmax):
     for i in range(n_calls):
         fam = FAM_ORDER[i % len(FAM_ORDER)]
         nB = 1 if (fam == 'same' and rng.random() < 0.3) else _ri(rng, 2, nmax)
-        B = FAMILIES[fam](rng, nB)
+        if i % 11 == 7:
+            nB = rng.choice([1, 2, 2])                      # single-point / two-point target sets
+            fam = rng.choice(['random', 'pythag', 'axisplane'])
+        B = FAMILIES[fam](rng, nB)[:max(nB, 1)] if i % 11 == 7 else FAMILIES[fam](rng, nB)
         nB = len(B)
-        mode = rng.choice(['self', 'self', 'other', 'shifted', 'outside'])
+        mode = rng.choice(['self', 'self', 'same-object', 'other', 'shifted', 'outside', 'subset', 'superset'])
+        same_object = False
         if mode == 'self':
             A = None
+        elif mode == 'same-object':
+            A = None                                        # target_fem_data=self passed explicitly
+            same_object = True
+        elif mode == 'subset':
+            A = [list(p) for p in rng.sample(B, max(1, len(B) - rng.choice([1, 2, 3])))]
+        elif mode == 'superset':
+            extra = [[x + rng.choice([-2, 0, 1, 5]) for x in rng.choice(B)] for _ in range(rng.choice([1, 2, 3]))]
+            A = [list(p) for p in B] + extra
+            rng.shuffle(A)
+            A = A[:max(2, nmax)]
         elif mode == 'other':
             fa = rng.choice(list(FAMILIES))
             A = FAMILIES[fa](rng, _ri(rng, 1, max(2, nmax // 2)))
@@ -275,15 +289,226 @@ def gen_knn_calls(ctx, n_calls, nmax):
         ks = [1, 1, 2, 3, max(1, nB - 1), nB, nB + 1, nB + 3]
         k = rng.choice(ks)
         b = bound_choices(rng, A if A is not None else B, B)
-        c = {'id': len(calls), 'fn': 'knn', 'family': fam, 'qmode': mode,
+        # cloud far from the origin relative to its size: integer offset of 1e5 .. 1e7 extents
+        far = ''
+        if i % 6 == 3:
+            allp = B + (A or [])
+            ext = max(1, max(max(p[j] for p in allp) - min(p[j] for p in allp) for j in range(3)))
+            off = [rng.choice([-1, 1, 1]) * ext * rng.choice([10 ** 5, 3 * 10 ** 5, 10 ** 6, 10 ** 7])
+                   * rng.choice([0, 1, 1]) for _ in range(3)]
+            if off == [0, 0, 0]:
+                off[0] = ext * 10 ** 6
+            B = [[p[j] + off[j] for j in range(3)] for p in B]
+            A = None if A is None else [[p[j] + off[j] for j in range(3)] for p in A]
+            far = '+far'
+        c = {'id': len(calls), 'fn': 'knn', 'family': fam + far, 'qmode': mode,
              'A': {'pts': A if A is not None else B}, 'B': None if A is None else {'pts': B},
              'k': k, 'bound': None if b is None else float(b).hex(), 'bound_f': b,
              'bound2': bound_sq(b)}
+        if same_object:
+            c['same_object'] = True
         if i % 5 == 4:
             add_history(rng, c)
             c['qmode'] = mode + '+moved-in-place'
+        else:
+            pick_dtypes(rng, c)
         calls.append(c)
     return calls
+
+
+def pick_dtypes(rng, c):
+    """coordinates stored as float32 / int64 / int32 arrays when they are exactly representable"""
+    for key in ('A', 'B'):
+        m = c.get(key)
+        if not m or 'pts' not in m:
+            continue
+        big = max([abs(x) for p in m['pts'] for x in p] + [0])
+        dt = rng.choice(['float64', 'float64', 'float64', 'float32', 'int64', 'int32'])
+        if (dt == 'float32' and big >= 2 ** 24) or (dt == 'int32' and big >= 2 ** 31):
+            dt = 'float64'
+        if dt != 'float64':
+            m['dtype'] = dt
+    return c
+
+
+# ---------------------------------------------- decimal scales / far clouds (tolerant mode)
+def gen_approx_calls(ctx, n_calls, nmax, start_id):
+    """coordinates offset + n * scale with a decimal scale, far from the origin: not small
+    integers, so femio's float results are compared with a stated tolerance against the exact
+    brute force over the exact binary64 coordinates"""
+    rng = ctx.rng
+    calls = []
+    for i in range(n_calls):
+        scale = rng.choice([0.001, 0.1, 1e-4, 0.3, 3.7, 1e3, 0.01])
+        ext = rng.choice([3, 10, 40])
+        offm = rng.choice([0, 1e5, 1e6, 1e7, 1e7])
+        off = [rng.choice([-1, 1, 1]) * offm * ext * scale * (0.5 + rng.random()) for _ in range(3)]
+        fam = rng.choice(['random', 'lattice', 'dups', 'axisplane', 'collinear'])
+        nB = _ri(rng, 1, nmax)
+        Bi = FAMILIES[fam](rng, nB)
+        Bf = [[off[j] + (p[j] % (ext + 1)) * scale for j in range(3)] for p in Bi]
+        mode = rng.choice(['self', 'other', 'subset'])
+        if mode == 'self':
+            Af = None
+        elif mode == 'subset':
+            Af = [list(p) for p in rng.sample(Bf, max(1, len(Bf) - 1))]
+        else:
+            Af = [[off[j] + rng.randint(-2, ext + 2) * scale + rng.choice([0, 0.5 * scale]) for j in range(3)]
+                  for _ in range(_ri(rng, 1, max(2, nmax // 2)))]
+        k = rng.choice([1, 2, 3, max(1, nB - 1), nB, nB + 2])
+        b = None if rng.random() < 0.5 else rng.choice([0.5, 1.5, 2.5, 4.25]) * scale * rng.choice([1, 2])
+        c = {'id': start_id + len(calls), 'fn': 'knn', 'approx': True, 'family': 'decimal:' + fam,
+             'qmode': mode + ('+far' if offm else ''), 'scale': scale, 'offset_extents': offm,
+             'A': {'pts_hex': [[float(x).hex() for x in p] for p in (Af if Af is not None else Bf)]},
+             'B': None if Af is None else {'pts_hex': [[float(x).hex() for x in p] for p in Bf]},
+             'k': k, 'bound': None if b is None else float(b).hex(), 'bound_f': b}
+        calls.append(c)
+    return calls
+
+
+def hexpts(m):
+    return [[Fraction(float.fromhex(x)) for x in p] for p in m['pts_hex']]
+
+
+def scaled_ints(fr_lists):
+    """exact binary64 values -> integers by a common power of two; returns (unit exponent E,
+    integer lists) with value = int * 2^-E"""
+    E = 0
+    for L in fr_lists:
+        for p in L:
+            for x in p:
+                E = max(E, x.denominator.bit_length() - 1)
+    return E, [[[int(x * 2 ** E) for x in p] for p in L] for L in fr_lists]
+
+
+TAU = 2 ** 40
+
+
+def check_knn_approx(ctx, calls, res):
+    defs, items, fails, meta = [], [], [], {}
+    for c in calls:
+        r = res[c['id']]
+        ctx.count('knn:approx:' + c['family'])
+        ctx.count('knn:approx:offset:%g' % c['offset_extents'])
+        if 'exc' in r:
+            fails.append((c, None, 'exception: ' + r['exc'], 'impl'))
+            continue
+        Af = hexpts(c['A'])
+        Bf = Af if c['B'] is None else hexpts(c['B'])
+        E, (Ai, Bi) = scaled_ints([Af, Bf])
+        k = c['k']
+        b = c['bound_f']
+        if b is None:
+            b2 = None
+        else:
+            fb = Fraction(b) ** 2 * 4 ** E
+            b2 = fb.numerator // fb.denominator
+            # keep the bound away from every attained distance (rounding of d is not modelled)
+            near = any(abs(d2(a, p) - fb) * 10 ** 9 <= fb for a in Ai for p in Bi)
+            if near:
+                ctx.count('knn:approx:bound-too-close-skipped')
+                continue
+        # the replayed float octree must store every target
+        bb = bbox_of([[float(x) for x in p] for p in Bf])
+        lost = [i for i, p in enumerate(Bf) if octree_descend_fixed([float(x) for x in p], bb) != 'ok']
+        if lost:
+            ctx.count('knn:approx:octree-replay-loses-a-point')
+        defs.append(f'Definition B_{c["id"]} : list P := {cPl(Bi)}.')
+        if len(r['idx']) != len(Ai):
+            fails.append((c, None, 'row-count', 'oracle'))
+            continue
+        for qi, q in enumerate(Ai):
+            cid = c['id'] * 1000 + qi
+            meta[cid] = (c, qi)
+            idx, vec, dist = r['idx'][qi], r['vec'][qi], r['dist'][qi]
+            ctx.case(['knn-approx', Bi, q, k, b2], nontrivial=len(Bi) >= 2,
+                     sample={'fn': 'knn', 'mode': 'tolerant', 'scale': c['scale'],
+                             'offset_extents': c['offset_extents'], 'k': k, 'impl_idx': idx})
+            # vectors and distances: float results of exact inputs (checked with exact rationals)
+            bad = None
+            for j, (ix, v, dd) in enumerate(zip(idx, vec, dist)):
+                if ix == -1:
+                    if not (all(x == 'inf' for x in v) and dd == 'inf'):
+                        bad = 'padding-vector'
+                    continue
+                if not (0 <= ix < len(Bf)) or not all(isinstance(x, list) for x in v) or not isinstance(dd, list):
+                    bad = 'index-range' if not (0 <= ix < len(Bf)) else 'vector-not-finite'
+                    break
+                tv = [Bf[ix][t] - Af[qi][t] for t in range(3)]
+                vv = [Fraction(x[0], x[1]) for x in v]
+                if any(abs(vv[t] - tv[t]) * 2 ** 50 > abs(tv[t]) for t in range(3)):
+                    bad = 'vector-mismatch'
+                    break
+                n2 = sum(x * x for x in tv)
+                df = Fraction(dd[0], dd[1])
+                if abs(df * df - n2) * TAU > n2:
+                    bad = 'dists-inconsistent'
+                    break
+            if bad:
+                fails.append((c, qi, bad, 'oracle'))
+            items.append((cid, f'knn_agree_tol {TAU} {k}%nat {cD(b2)} {cP(q)} B_{c["id"]} '
+                               f'{lib.coq_list([lib.coq_Z(i) for i in idx])}'))
+    failing, ok = coq_failing(ctx, 'CorrKnnTol', defs, items)
+    ctx.corr['knn_tolerant_rows_checked_in_coq'] = ctx.corr.get('knn_tolerant_rows_checked_in_coq', 0) + len(items)
+    for cid in sorted(failing):
+        c, qi = meta[cid]
+        if not any(f[0] is c and f[1] == qi for f in fails):
+            fails.append((c, qi, 'coq-spec-disagreement(tolerant)', 'coq'))
+    return fails
+
+
+def octree_descend_fixed(pt, bbox):
+    """binary64 replay of the descent of build_octree_node as of /repo 7a2f8fc (snapped grid);
+    the text of that function is pinned by translate/c16_loops.py"""
+    import numpy as np
+    xmin, xmax, ymin, ymax, zmin, zmax = (float(v) for v in bbox)
+    w0 = max(xmax - xmin, ymax - ymin, zmax - zmin) * 0.51
+    x0, y0, z0 = (xmin + xmax) / 2, (ymin + ymax) / 2, (zmin + zmax) / 2
+    if w0 > 0:
+        w0 = float(2.0 ** np.ceil(np.log2(w0)))
+        lw = w0 / 256
+        x0, y0, z0 = (float(np.round(v / lw) * lw) for v in (x0, y0, z0))
+    vx, vy, vz, vw = x0, y0, z0, w0
+    x, y, z = (float(v) for v in pt)
+    for _ in range(8):
+        if not (vx - vw <= x <= vx + vw and vy - vw <= y <= vy + vw and vz - vw <= z <= vz + vw):
+            return 'assert'
+        cw = vw / 2
+        for r in range(8):
+            cx = vx - cw if r & 4 else vx + cw
+            cy = vy - cw if r & 2 else vy + cw
+            cz = vz - cw if r & 1 else vz + cw
+            if cx - cw <= x <= cx + cw and cy - cw <= y <= cy + cw and cz - cw <= z <= cz + cw:
+                vx, vy, vz, vw = cx, cy, cz, cw
+                break
+        else:
+            return 'fallout'
+    return 'ok'
+
+
+def octree_grid_replay(ctx, n_clouds):
+    """does the (snapped) float octree lose a point on clouds far from the origin / at decimal
+    scales?  pure replay of the descent, no femio call; clouds that lose a point are returned
+    so that they are run on the implementation"""
+    rng = ctx.rng
+    lost_clouds, n_pts = [], 0
+    for _ in range(n_clouds):
+        scale = rng.choice([1.0, 0.001, 0.1, 1e-4, 3.7, 1e3, 0.3, 2.0 ** -10])
+        ext = rng.choice([1, 5, 40, 1000])
+        offm = rng.choice([0, 1e3, 1e5, 1e6, 1e7, 3e7, 1e9])
+        off = [rng.choice([-1, 0, 1]) * offm * ext * scale * rng.random() for _ in range(3)]
+        pts = [[off[j] + rng.randint(0, ext) * scale for j in range(3)] for _ in range(rng.randint(1, 8))]
+        if rng.random() < 0.3:
+            ax = rng.randrange(3)
+            for p in pts:
+                p[ax] = pts[0][ax]
+        bb = bbox_of(pts)
+        n_pts += len(pts)
+        if any(octree_descend_fixed(p, bb) != 'ok' for p in pts):
+            lost_clouds.append(pts)
+    ctx.notes['octree_grid_replay'] = {'clouds': n_clouds, 'points': n_pts, 'clouds_losing_a_point': len(lost_clouds),
+                                       'offsets_in_extents': 'up to 1e9', 'scales': 'decimal and dyadic, 1e-4 .. 1e3'}
+    return lost_clouds
 
 
 def gen_hd_calls(ctx, n_calls, nmax, start_id):
@@ -329,11 +554,21 @@ def gen_hd_calls(ctx, n_calls, nmax, start_id):
             B = FAMILIES[fb](rng, _ri(rng, 1, nmax))
         if rng.random() < 0.5:
             A, B, fa, fb = B, A, fb, fa
-        c = {'id': start_id + len(calls), 'fn': 'hd', 'family': fa + '/' + fb,
+        far = ''
+        if i % 5 == 0:
+            allp = A + B
+            ext = max(1, max(max(p[j] for p in allp) - min(p[j] for p in allp) for j in range(3)))
+            off = [rng.choice([-1, 1]) * ext * rng.choice([10 ** 5, 10 ** 6, 10 ** 7]) for _ in range(3)]
+            A = [[p[j] + off[j] for j in range(3)] for p in A]
+            B = [[p[j] + off[j] for j in range(3)] for p in B]
+            far = '+far'
+        c = {'id': start_id + len(calls), 'fn': 'hd', 'family': fa + '/' + fb + far,
              'A': {'pts': A}, 'B': {'pts': B}, 'directed': rng.random() < 0.6}
         if i % 4 == 2:
             add_history(rng, c)
             c['family'] += '+moved-in-place'
+        else:
+            pick_dtypes(rng, c)
         calls.append(c)
     return calls
 
@@ -773,6 +1008,8 @@ def check_knn(ctx, calls, res, with_model=True):
         k, b2 = c['k'], c['bound2']
         ctx.count('knn:family:' + c['family'])
         ctx.count('knn:query:' + c['qmode'])
+        ctx.count('knn:dtype:' + c['A'].get('dtype', 'float64') + '/' + ((c['B'] or c['A']).get('dtype', 'float64')))
+        ctx.count('knn:n_targets:' + ('1' if len(B) == 1 else '2' if len(B) == 2 else '>2'))
         ctx.count('knn:bound:' + ('inf' if b2 is None else 'neg' if b2 < 0 else 'zero' if b2 == 0 else
                                   'exact-hit' if any(d2(a, b) == b2 for a in A for b in B) else 'finite'))
         ctx.count('knn:k:' + ('1' if k == 1 else '>n' if k > len(B) else '=n' if k == len(B) else 'mid'))
@@ -1078,7 +1315,7 @@ def report(ctx, fails, res, do_shrink=True):
         case = strip(c)
         shrunk_from = None
         if do_shrink and src in ('oracle', 'coq') and c['fn'] in ('knn', 'hd') and len(seen) <= 1 \
-                and not c.get('history') \
+                and not c.get('history') and not c.get('approx') \
                 and __import__('time').time() - ctx.t0 < 150:
             small = shrink(ctx, c, knn_fails if c['fn'] == 'knn' else hd_fails)
             if small is not c:
@@ -1256,11 +1493,21 @@ def main(ctx):
             calls.append(c)
         calls += gen_hd_calls(ctx, n_hd, nmax, len(calls))
         calls += gen_hop_calls(ctx, n_hop, len(calls))
+        calls += gen_approx_calls(ctx, max(4, n_knn // 4), nmax, len(calls))
+        # replay of the float octree descent on far / decimal clouds; a cloud that loses a
+        # point is run on the implementation (self search, k = 1)
+        for pts in octree_grid_replay(ctx, 1500 if quick else 20000)[:5]:
+            calls.append({'id': len(calls), 'fn': 'knn', 'approx': True, 'family': 'octree-replay-loss',
+                          'qmode': 'self', 'scale': 0, 'offset_extents': -1,
+                          'A': {'pts_hex': [[float(x).hex() for x in p] for p in pts]}, 'B': None,
+                          'k': 1, 'bound': None, 'bound_f': None})
         ctx.log(f'[{tag}] {len(calls)} implementation calls ({len(corpus)} corpus)')
         res = run_impl_parallel(ctx, calls, 1 if quick else 4, tag)
         ctx.log('implementation done, max call time %.2fs' % max(r['t'] for r in res.values()))
         fails = []
-        fails += check_knn(ctx, [c for c in calls if c['fn'] == 'knn'], res, with_model=model_ok)
+        fails += check_knn(ctx, [c for c in calls if c['fn'] == 'knn' and not c.get('approx')], res,
+                           with_model=model_ok)
+        fails += check_knn_approx(ctx, [c for c in calls if c['fn'] == 'knn' and c.get('approx')], res)
         ctx.log('knn checked')
         fails += check_hd(ctx, [c for c in calls if c['fn'] == 'hd'], res, with_model=model_ok)
         ctx.log('hausdorff checked')
@@ -1315,7 +1562,11 @@ def replay(path):
     res = run_impl(ctx, [c], 'replay')
     print('implementation:', json.dumps(res[0])[:3000])
     lib.coq_make(['C16/Model.vo'])
-    if c['fn'] == 'knn':
+    if c['fn'] == 'knn' and c.get('approx'):
+        c.setdefault('scale', 0)
+        c.setdefault('offset_extents', 0)
+        fails = check_knn_approx(ctx, [c], res)
+    elif c['fn'] == 'knn':
         fails = check_knn(ctx, [c], res)
     elif c['fn'] == 'hd':
         fails = check_hd(ctx, [c], res)
